@@ -31,7 +31,7 @@ META = dict(
               "injected into one entry of the analytic Jacobian chosen by the solver (or none)",
         thorough="same, plus n=3 (subsets [], [0,1], [2], [0,2], [2,0,1]; layout BBB for forward differences), layouts UB and (B,B), more index sets / name orders at the discipline level",
     ),
-    outside=["parallel evaluation (_compute_parallel_grad, C13)", "compute_optimal_step / auto_set_step / error_estimators (rounding-error model)",
+    outside=["the parallel executor itself (C13): the parallel code path _compute_parallel_grad of the three approximators runs with an in-order executor stub (results positionally matched to the inputs), in both modes", "compute_optimal_step / auto_set_step / error_estimators (rounding-error model)",
              "non-polynomial functions; rounding error of float64 (the complex-step clause 'rounding error only' is the identity A == f' for quadratics)",
              "steps h <= 0 (centred differences divide by |x+ - x-|, so a negative step returns -f': reported separately, outside the 'numerically safe range')",
              "per-component step vectors together with a strict component subset (the approximators index the vector by position in the subset, "
@@ -135,6 +135,27 @@ def _install_stubs(ctx):
     ctx.patch(da, "zeros", zeros_obj)
 
 
+class _InOrderExecutor:
+    """Contract stub of CallableParallelExecution for the ``parallel=True`` configurations: results positionally matched to the inputs
+    (that contract is the subject of C13; processes / pickling cannot carry symbols)."""
+
+    def __init__(self, workers, **options):
+        self.workers = list(workers)
+
+    def execute(self, inputs, **options):
+        return [(self.workers[i] if len(self.workers) > 1 else self.workers[0])(v) for i, v in enumerate(inputs)]
+
+
+def _install_executor_stub(ctx):
+    """Both modes: the float64 replay must not fork processes inside the checker's worker pool."""
+    import gemseo.utils.derivatives.centered_differences as cd
+    import gemseo.utils.derivatives.complex_step as cs
+    import gemseo.utils.derivatives.finite_differences as fd
+
+    for mod in (fd, cd, cs):
+        ctx.patch(mod, "CallableParallelExecution", _InOrderExecutor, symbolic_only=False)
+
+
 H_MIN, H_MAX, W_MIN = 2.0 ** -10, 2.0 ** 10, 2.0 ** -10
 
 
@@ -206,6 +227,9 @@ def h_approx(ctx, cfg):
             if np.isfinite(_c(ub[j])):
                 ctx.assume(ctx.le(xs[j], ub[j]))
         kwargs = dict(design_space=ds, normalize=normalize)
+    if cfg.get("parallel"):
+        _install_executor_stub(ctx)
+        kwargs["parallel"] = True
     if cfg.get("step_at") == "init":
         approximator = GradientApproximatorFactory().create(METHODS[method], f, step=step, **kwargs)
         call = lambda: approximator.f_gradient(x, x_indices=subset)  # noqa: E731
@@ -545,6 +569,15 @@ def configs(tier):
         A(method=method, n=2, m=1, subset=[], ds="phys", layout="B,B", vec_step=True)
     A(method="cs", n=2, m=1, subset=[], ds="phys", layout="BB")
     A(method="cs", n=1, m=1, subset=[], ds="norm", layout="B")
+    # ---- the same formulas through the parallel code path (_compute_parallel_grad) with an in-order executor stub --------------
+    for method in ("fd", "cd", "cs"):
+        A(method=method, n=2, m=2, subset=[], parallel=True)
+        A(method=method, n=2, m=1, subset=[1, 0], parallel=True)
+        if method != "cs":
+            A(method=method, n=2, m=1, subset=[], vec_step=True, parallel=True)
+            A(method=method, n=1, m=1, subset=[], ds="phys", layout="B", parallel=True)
+            A(method=method, n=2, m=1, subset=[], ds="norm", layout="BB", parallel=True)
+            A(method=method, n=2, m=1, subset=[1], ds="phys", layout="BB", parallel=True)
     if tier == "thorough":
         for method in ("fd", "cd"):
             for mode in ("phys", "norm"):
